@@ -579,6 +579,43 @@ def run_case(case, drv):
                 if not ok:
                     k.append(f"subs({x},{t}): model {m} code {_norm(wire(res))}")
 
+    # ---- subs keyed by an amount function of the ODE system (a renaming): every statement must follow
+    if has_ode:
+        odes = [s for s in ss if not isinstance(s, Assignment)]
+        for ai, a in enumerate(sorted(odes[0].amounts, key=str)):
+            old_name = str(a)
+            newf = Expr.function(f"AQ{ai}", "t")
+            new_name = str(newf)
+            try:
+                res = list(ss.subs({a: newf}))
+            except Exception as ex:
+                mon.append({"cls": "internal-error", "what": f"subs({{{old_name}: {new_name}}}) raised {type(ex).__name__}: {ex}"})
+                continue
+            tags.append("q:subs-amount")
+            stale = [str(getattr(r, "symbol", "ode")) for r in res if old_name in stmt_rhs_names(r) or old_name in stmt_def_names(r)]
+            if stale:
+                mon.append({"cls": "subs-amount-stale", "what": f"after subs({{{old_name}: {new_name}}}) the statements {stale} still "
+                            f"read or define {old_name}; amounts of the system: {names(x for r in res if not isinstance(r, Assignment) for x in r.amounts)}"})
+            before_reads = [i for i, r in enumerate(ss) if old_name in stmt_rhs_names(r)]
+            after_reads = [i for i, r in enumerate(res) if new_name in stmt_rhs_names(r)]
+            if len(res) == len(ss) and before_reads != after_reads:
+                mon.append({"cls": "subs-amount-readers", "what": f"statements reading {old_name} before: {before_reads}; reading {new_name} after: {after_reads}"})
+            if drv is not None:
+                m = drv.ask(["rename", w, old_name, new_name])
+                wr = wire(res)
+
+                def shape(st):
+                    st = _norm(st)
+                    if st[0] == "=":
+                        return ["=", st[1], sorted(exprconv.sexp_syms(st[2]))]
+                    return ["ode", sorted(st[1]), sorted(st[2])]
+                try:
+                    a1, a2 = [shape(x) for x in m], [shape(x) for x in wr]
+                except Exception as ex:
+                    a1, a2 = "?", f"{type(ex).__name__}"
+                if a1 != a2:
+                    k.append(f"rename({old_name},{new_name}): model {a1} code {a2}")
+
     return {"k": k, "mon": mon, "tags": tags, "nontrivial": nontrivial}
 
 
